@@ -66,6 +66,26 @@ META = {
         note=COMMON_NOTE,
         technique="Lean 4 proof (success-path characterisation + invariant over histories) + differential correspondence + trace monitor",
     ),
+    "C07": dict(
+        text="Kernel-checked theorems that nothing is honoured after expiry: for every Validate* of the HMAC, JWT and device strategies the model equals the declarative rule at every instant and duration (exact-instant refusal for codes, opaque access tokens, finite refresh tokens, device and user codes, PAR request URIs and RFC 7523 assertions; whole-second refusal for JWT access tokens); expires_in and exp are consistent with the stamped expiry; per-client lifespan overrides are exact, decided over the lifespan table regenerated from client_with_custom_token_lifespans.go on every run. Tied to /repo by the differential driver under a virtual clock (testing/synctest) and by the history driver.",
+        note=COMMON_NOTE + "PAR expiry (F3) repaired in 6d04a0f; the model follows the repaired code. Legacy jwt-go readings (exp: 0, non-numeric exp, session without expiry) are hypotheses of the JWT theorems and skipped by the monitor.",
+        technique="Lean 4 proof (model = spec for every Validate* over all instants and durations; decide over the regenerated lifespan table) + differential correspondence under a virtual clock + trace monitor",
+    ),
+    "C10": dict(
+        text="Kernel-checked theorems over the Lean model of DefaultClientAuthenticationStrategy and its use at the token, revocation, PAR and device endpoints, for every hasher, registry, request, assertion outcome, configuration and handler chain: the model decides exactly the documented acceptance relation; a confidential client is accepted only with a secret matching the current or a rotated hash over mechanisms its registered method permits, or an accepted assertion; every rejection is invalid_client / invalid_request (PAR: renamed invalid_client) or the assertion sub-result's own error; a rejected request reaches no handler and writes nothing unless the responsible handler's CanSkipClientAuth allows it, which the regenerated source table shows only rfc7523.Handler can; public clients never pass client_credentials; the PAR endpoint acts for the authenticated client only. Tied to /repo by an exhaustive differential cross product; the documented meaning is evaluated independently as a monitor.",
+        note=COMMON_NOTE + "PAR acting for the form client_id instead of the authenticated client was repaired in 417e2e2 (model follows). PAR reading credentials from the URL query is a recorded known finding (clientauth:par-query): the repair (authenticate from PostForm) cannot pass the unedited upstream tests, which build requests by assigning r.Form.",
+        technique="Lean 4 proof (refinement model = declarative spec; structural induction over the handler loop; decide over go/ast-extracted CanSkipClientAuth facts) + exhaustive differential correspondence + spec monitor",
+    ),
+    "C14": dict(
+        text="Kernel-checked theorems over the Lean model of GenerateIDToken / ToMap / ComputeHash / ValidatePrompt and the six openid handlers (hash and base64 abstract): an ID token is issued only with openid granted and a non-empty subject; aud contains the client and only session audiences beside it; sub/iss come from the session; nonce echoed and length-checked; exp in the future and bounded by the lifespan; at_hash / c_hash are the left half of the hash the header names, over the access token / code of the same exchange, c_hash absent on refresh; max_age, prompt=none/login and id_token_hint violations fail; none of the 13 reserved claims can be overridden by Extra. Tied to /repo by an end-to-end differential driver under synctest with independent go-jose verification; the documented bindings run as a monitor over (op, observation).",
+        note=COMMON_NOTE + "Three corner behaviours are limit theorems and excluded from the default generator (see evidence.coverage.partial).",
+        technique="Lean 4 proof (success characterisation generate_ok + per-clause theorems over all sessions/requests/clocks) + differential end-to-end correspondence + spec monitor on observations",
+    ),
+    "C15": dict(
+        text="Kernel-checked theorems over a total Lean model of the two assertion decision procedures (client_assertion in DefaultClientAuthenticationStrategy; RFC 7523 JWT-bearer grant) and the nanosecond jti memory of the reference store: an accepted assertion is completely verified (registered sig key for the header's algorithm, registered asymmetric alg, iss/sub, audience names a token URL, unexpired, nbf/iat/max-duration, scopes covered by that key's registration, fresh non-empty jti); over EVERY history (induction with the Blocked invariant) and under EVERY scheduler of n concurrent presentations (invariant over three atomic steps) at most one presentation of a (jti, exp) ticket is accepted, on both paths. Tied to /repo through the real endpoints under synctest.",
+        note=COMMON_NOTE + "Two genuine defects found by this check were repaired (72d22c6: exp 0 accepted and replayable; b819172: replay inside [exp, exp+1s), F4); the former counterexample theorems are regression theorems now.",
+        technique="Lean 4 proof (total model; induction over histories with the Blocked invariant; scheduler-quantified invariant) + differential correspondence through the real endpoints + spec monitor",
+    ),
     "C19": dict(
         text="Partial under this technique. Proved: a generic lockset soundness theorem and a lock-order deadlock-freedom theorem for RWMutex transition systems with any number of threads, instantiated by kernel evaluation (decide) on lock/access/call facts extracted from storage/memory.go, token/hmac/hmacsha.go and config_default.go on every run: every map access of the reference store is made under its guarding mutex in a sufficient mode, lock acquisition order is acyclic, no re-acquisition, Config getters assign nothing. Support (not proof): a go test -race stress run with overlapping credentials and a deadlock watchdog supplies concrete race reports as replays.",
         note=COMMON_NOTE + "The Go memory model, the runtime and value-level sharing (Session pointers) are not modelled; see assumptions/partial in the evidence.",
